@@ -40,7 +40,7 @@ CLAIMED = {
     "C18": {
         "technique": "reference-graph reachability with edges behind the action gate removed, constant/parameter audit of the action argument, instantiation of the filter pattern expression and anchoring check with regexp/syntax (with embedded positive/negative oracle examples), must-pass-through of the backup copy",
         "text": "Structural necessary conditions: from runCheck no function that builds a state-changing request or writes a layout is reachable once call sites behind `action != check` are removed, and the action is passed down unchanged; every regexp.Compile reachable from filterList takes a pattern that, instantiated with sample filters and parsed, is anchored at both ends in every alternative, and both lists are read; the backup ImageCopy has the target as source, and from the backup-configured edge the overwriting copy is reachable only through it.",
-        "note": "the before/after comparison of registries, platform resolution and its cache (seeded change C18-2 not detected), tag movement between runs and template expansion are not decided.",
+        "note": "the before/after comparison of registries, platform resolution itself, tag movement between runs and template expansion are not decided.",
         "design": "DESIGN.md §3 C18",
     },
     "C20": {
@@ -136,6 +136,45 @@ CLAIMED = {
 }
 
 NOT_CLAIMED = {}
+
+# second-round additions (rules written after the independent seeded changes of round two and the defects D15, D16)
+ADD = {
+    "C02": ("; constructor descriptor = stored raw body (digest argument and size store), JSON-encoder sink audit followed through `any` helpers",
+            " Also: in fromCommon/fromOrig the digest is FromBytes of the stored raw body and the size is set to its length on every path to a success return (D15, fixed); no manifest value reaches encoding/json in the packages that store or send content."),
+    "C03": ("; value audit of the descriptor given to the target's existence test; GC-lock protocol shared with C08",
+            " Also: BlobCopy asks the target whether the blob exists with a descriptor whose URLs were cleared; the copy holds the layout GC lock and the lock cannot be lost (C08.R1/R2)."),
+    "C04": ("; layout write order and GC-lock bookkeeping shared with C07.R3 / C08.R2",
+            " Also: in the layout scheme the index entry is written after the manifest file is in place (also through helpers), and the GC bookkeeping entry of a running copy is never overwritten or dropped."),
+    "C06": ("; dominance of the exact lookup pass over loose matches; nested-writer reachability between an index read and its write-back",
+            " Also: a suffix match of a ref.name annotation is tried only after a complete exact pass; nothing that rewrites the index runs between readIndex and the writeIndex of that copy."),
+    "C07": ("; remove-before-rename reachability",
+            " Also: no os.Remove of a rename's destination precedes the rename; rename/remove helpers are followed."),
+    "C08": ("; map-overwrite audit of the GC bookkeeping; control dependence of the sweep's removal",
+            " Also: a bookkeeping entry is stored only on the miss edge of a lookup in the same map (or stored back); the sweep's removal does not depend on a test of the shape of the entry's name."),
+    "C09": ("; typestate of the import scan (rescan flag after a registration made during the scan; one read per archive entry)",
+            " Also: code reachable from a handler that registers another handler sets the rescan flag on every success path; an entry's stream is consumed by at most one reader per handler (D16, fixed)."),
+    "C10": ("; nested-writer reachability in the layout index read-modify-write; origin audit of WithManifest arguments",
+            " Also: the layout's ManifestDelete does not write back an index copy read before a nested index update; a manifest passed with WithManifest never comes from ManifestHead."),
+    "C11": ("; loose-match lint against constant host names",
+            " Also: no suffix/prefix/substring/case-folding match against a constant host name in the credential and host packages."),
+    "C12": ("; marker-pager exit audit outside the registry scheme",
+            " Also: a client-side loop that pages a listing by marker leaves on an empty page and when the page's last entry equals the marker sent."),
+    "C13": ("; placement audit of RegClient.Close relative to dagPut",
+            " Also: no RegClient.Close (layout GC) can run in package mod before dagPut has written the manifests."),
+    "C14": ("; dominating known-length guard of every Content-Length comparison",
+            " Also: a response's ContentLength is compared with an expected size only where it is known (not -1)."),
+    "C15": ("; rewriting-call audit of the serialiser",
+            " Also: CommonName passes no field of the reference through a string-rewriting function."),
+    "C17": ("; panic-aware release typestate; throttle identity audit (map delete / overwrite / multiple store sites)",
+            " Also: no Lua raise or panic is reachable while a slot is held and no release is deferred; a throttle is never deleted from its map, replaced, or stored at more than one site."),
+    "C18": ("; memoisation soundness (by-value parameters of the cached value vs. of the key, with call-site coverage)",
+            " Also: every store into a package-level cache of cmd/regsync is keyed by everything the cached value is computed from."),
+    "C19": ("; failure-edge reachability of the shared context's cancel function",
+            " Also: the runner does not cancel the context shared by the scripts on one script's failure."),
+}
+for _pid, (_t, _x) in ADD.items():
+    CLAIMED[_pid]["technique"] += _t
+    CLAIMED[_pid]["text"] += _x
 
 def main():
     props = [json.loads(l)["id"] for l in open("/verif/properties.jsonl")]
